@@ -8,7 +8,7 @@ use crate::rng::Rng;
 use crate::Opts;
 use serde_json::json;
 
-const SRC: &str = "foo(abc, 12);\nfoo(1, [2, 3], 'x');\nlet HTTPÉtat = 1;\nlet XMLÀb = 1;\nlet ÉÉt = 1;\nclass A { m() { return foo(this.x); } }\nconsole.log(foo(1), bar(2));\n// ast-grep-ignore\nbar(3);\n";
+const SRC: &str = "foo(abc, 12);\nfoo(1, [2, 3], 'x');\nlet HTTPÉtat = 1;\nlet XMLÀb = 1;\nlet ÉÉt = 1;\nclass A { m() { return foo(this.x); } }\nconsole.log(foo(1), bar(2));\n// ast-grep-ignore\nbar(3);\nlet z = 2\nlet y = 3, c = 1\nreturn q\n";
 
 fn base_rule(id: &str, body: &str) -> String {
   format!("id: {id}\nlanguage: TypeScript\nmessage: m\nrule:\n{body}")
@@ -20,7 +20,7 @@ fn gen(rng: &mut Rng, k: usize) -> (&'static str, String) {
   let strs = ["''", "'$'", "'$$$'", "'µA'", "'$A'", "'$$$A'", "'a'", "'('", "'[a-'", "'\\\\'", "'\\u0000'", "'日本'", "'$1'", "'${'", "~", "[]", "{}", "12", "'*'", "'(?P<x'"];
   let n = |rng: &mut Rng| rng.pick(&nums).to_string();
   let st = |rng: &mut Rng| rng.pick(&strs).to_string();
-  match k % 20 {
+  match k % 22 {
     0 => ("", base_rule("r", &format!("  kind: number\n  nthChild: {}\n", n(rng)))),
     1 => ("", base_rule("r", &format!("  kind: number\n  nthChild: {}\n", ["\"99999999999n+1\"", "\"-n-2147483647\"", "\"2147483647n+2147483647\"", "\"n--1\"", "\"++n\"", "\"\"", "\"n n\"", "\"-2147483648n-2147483648\"", "\"1n+\"", "\"０n+１\""][rng.below(10)]))),
     2 => ("", base_rule("r", &format!("  kind: number\n  nthChild:\n    position: {}\n    reverse: {}\n    ofRule:\n      kind: {}\n", n(rng), ["true", "false", "1", "''"][rng.below(4)], ["number", "nope", "''", "1"][rng.below(4)]))),
@@ -33,13 +33,13 @@ fn gen(rng: &mut Rng, k: usize) -> (&'static str, String) {
         _ => format!("      separatedBy: [{}]\n", ["caseChange, dash", "dash", "underscore", "dot", "slash", "space", "nope"][rng.below(7)]),
       };
       ("", format!("{}transform:\n  C:\n    convert:\n      source: {}\n      toCase: {}\n{sep}fix: $C\n", base_rule("r", "  pattern: let $A = 1\n"), ["$A", "$A", "'$A'", "$$$A", "''"][rng.below(5)],
-        ["camelCase", "snakeCase", "kebabCase", "pascalCase", "upperCase", "lowerCase", "capitalize", "nope"][(k / 20) % 8]))
+        ["camelCase", "snakeCase", "kebabCase", "pascalCase", "upperCase", "lowerCase", "capitalize", "nope"][(k / 22) % 8]))
     }
     6 => ("", base_rule("r", &format!("  regex: {}\n  kind: identifier\n", st(rng)))),
     7 => ("", base_rule("r", &format!("  kind: number\n  range:\n    start: {{line: {}, column: {}}}\n    end: {{line: {}, column: {}}}\n", n(rng), n(rng), n(rng), n(rng)))),
     8 => ("", format!("{}fix:\n  template: {}\n  expandStart: {{regex: {}, stopBy: {}}}\n  expandEnd: {{kind: {}}}\n", base_rule("r", "  pattern: foo($$$A)\n"), st(rng), st(rng), ["end", "neighbor", "nope", "{kind: number}"][rng.below(4)], ["number", "nope"][rng.below(2)])),
     // reference cycles through every operator
-    9 => ("", if k / 20 % 2 == 0 {
+    9 => ("", if k / 22 % 2 == 0 {
         format!("{}utils:\n  A:\n    {}:\n      - matches: B\n  B:\n    not:\n      matches: A\n", base_rule("r", "  matches: A\n  kind: number\n"), ["all", "any"][rng.below(2)])
       } else {
         // the back edge sits in a composite key next to a `matches` key of the same object
@@ -47,7 +47,7 @@ fn gen(rng: &mut Rng, k: usize) -> (&'static str, String) {
         format!("{}utils:\n  A:\n    matches: C\n    {comp}\n  B:\n    matches: A\n  C:\n    kind: number\n", base_rule("r", "  matches: A\n  kind: number\n"))
       }),
     10 => ("", format!("{}utils:\n  U:\n    nthChild:\n      position: 1\n      ofRule:\n        matches: U\n", base_rule("r", "  matches: U\n  kind: number\n"))),
-    11 => ("relational-util-cycle", format!("{}utils:\n  A:\n    {}:\n      matches: B\n      stopBy: end\n  B:\n    {}:\n      matches: A\n      stopBy: end\n", base_rule("r", "  kind: number\n  matches: A\n"), ["inside", "follows"][k / 20 % 2], ["has", "precedes"][k / 20 % 2])),
+    11 => ("relational-util-cycle", format!("{}utils:\n  A:\n    {}:\n      matches: B\n      stopBy: end\n  B:\n    {}:\n      matches: A\n      stopBy: end\n", base_rule("r", "  kind: number\n  matches: A\n"), ["inside", "follows"][k / 22 % 2], ["has", "precedes"][k / 22 % 2])),
     12 => ("", format!("{}transform:\n  A1:\n    substring: {{source: $B1}}\n  B1:\n    substring: {{source: {}}}\n", base_rule("r", "  pattern: foo($A, $B)\n"), ["$A1", "$B1", "$C1", "$A"][rng.below(4)])),
     13 => ("", format!("{}rewriters:\n- id: rw\n  rule: {{kind: number}}\n  fix:\n    template: x\n    expandStart: {{regex: '\\('}}\n    expandEnd: {{regex: '\\)'}}\ntransform:\n  R:\n    rewrite:\n      source: $$$A\n      rewriters: [rw{}]\n      joinBy: {}\nfix: bar($R)\n", base_rule("r", "  pattern: foo($$$A)\n"), ["", ", rw", ", nope"][rng.below(3)], st(rng))),
     // severity off on stdin-like single rule; structural garbage
@@ -76,13 +76,18 @@ fn gen(rng: &mut Rng, k: usize) -> (&'static str, String) {
       ("", s)
     }
     18 => ("rewriter-self-application", format!("{}rewriters:\n- id: rw\n  rule: {{pattern: $B, kind: {}}}\n  transform:\n    C: {{rewrite: {{source: $B, rewriters: [rw]}}}}\n  fix: $C\ntransform:\n  D: {{rewrite: {{source: {}, rewriters: [rw]}}}}\nfix: $D\n",
-      base_rule("r", "  pattern: foo($A, $$$REST)\n"), ["number", "identifier"][k / 20 % 2], ["$A", "$$$REST"][k / 40 % 2])),
+      base_rule("r", "  pattern: foo($A, $$$REST)\n"), ["number", "identifier"][k / 22 % 2], ["$A", "$$$REST"][k / 44 % 2])),
     // recursive rewriters that do descend (legitimate) and utilities recursive through one relational direction
-    19 => ("", if k / 20 % 2 == 0 {
+    19 => ("", if k / 22 % 2 == 0 {
         format!("{}rewriters:\n- id: rw\n  rule: {{pattern: '[$$$ITEMS]'}}\n  transform:\n    C: {{rewrite: {{source: $$$ITEMS, rewriters: [rw], joinBy: '+'}}}}\n  fix: ($C)\ntransform:\n  D: {{rewrite: {{source: $$$A, rewriters: [rw]}}}}\nfix: $D\n", base_rule("r", "  pattern: foo($$$A)\n"))
       } else {
         format!("{}utils:\n  U:\n    any:\n      - kind: number\n      - has:\n          matches: U\n          stopBy: end\n", base_rule("r", "  kind: call_expression\n  matches: U\n"))
       }),
+    // patterns that stress the matcher's list alignment: adjacent ellipses before a node, ellipses only,
+    // holes next to ellipses — on a source with one-element lists and statements without terminator
+    20 => ("", base_rule("r", &format!("  pattern: {}\n", serde_json::to_string(["let $$$A, $$$B, c = 1", "let $$$A, $$$B", "foo($$$A, $$$B, c)", "[$$$A, $$$B, $C]", "$$$A, $$$B", "class A {{ $$$A $$$B m() {{}} }}",
+      "let $A, $$$B, $$$C, d = 1", "foo($$$, $$$, $X)", "{{ $$$A; $$$B; x }}", "return $$$A, $$$B, c"][(k / 22) % 10]).unwrap()))),
+    21 => ("", format!("id: r\nlanguage: {}\nrule:\n  pattern: {}\n", ["python", "TypeScript"][k / 22 % 2], serde_json::to_string(["import $$$A, $$$B, os", "let $$$A, $$$B, c"][k / 22 % 2]).unwrap())),
     _ => ("", format!("{}labels:\n  A:\n    style: {}\n    message: {}\nmetadata:\n  x: {}\nfiles: [{}]\nignores: {}\n", base_rule("r", "  pattern: foo($A, $B)\n"), ["primary", "secondary", "nope"][rng.below(3)], st(rng), n(rng), st(rng), st(rng))),
   }
 }
@@ -93,18 +98,19 @@ pub fn run(o: &Opts) {
   let n_docs = if o.thorough { 900 } else { 180 };
   let dir = fresh_dir(&o.out, "work");
   std::fs::write(dir.join("a.ts"), SRC).unwrap();
+  std::fs::write(dir.join("a.py"), "import sys\nimport os, re\nx = [1]\nprint(x)\n").unwrap();
   let mut sampled = false;
   for k in 0..n_docs {
     let (class, yaml) = gen(&mut rng, k);
     std::fs::write(dir.join("rule.yml"), &yaml).unwrap();
     // load + scan a file, and the --stdin path for a part of the documents
     let stdin = k % 5 == 4;
-    let r = if stdin { sg(&dir, &["scan", "-r", "rule.yml", "--stdin", "--json=stream"], Some(SRC), 15) } else { sg(&dir, &["scan", "-r", "rule.yml", "--json=stream", "a.ts"], None, 15) };
+    let r = if stdin { sg(&dir, &["scan", "-r", "rule.yml", "--stdin", "--json=stream"], Some(SRC), 15) } else { sg(&dir, &["scan", "-r", "rule.yml", "--json=stream", "a.ts", "a.py"], None, 15) };
     out.checked();
     let crashed = r.timed_out || r.code.is_none() || matches!(r.code, Some(101) | Some(134) | Some(139));
     let accepted = matches!(r.code, Some(0) | Some(1));
     out.count(if crashed { "outcome:crash" } else if accepted { "outcome:accepted-and-scanned" } else { "outcome:rejected-with-message" });
-    out.count(&format!("generator:{}", k % 20));
+    out.count(&format!("generator:{}", k % 22));
     if accepted {
       out.nontrivial(&yaml);
       if !sampled {
@@ -154,7 +160,7 @@ pub fn run(o: &Opts) {
     }
   }
   crate::c11case::run_case_tie(&mut out, &mut rng, if o.thorough { 6000 } else { 1500 });
-  out.finish("rule documents from 20 generators (extreme / non-numeric nthChild and substring numbers, An+B strings at the i32 limits, empty / multi-byte / sigil-only transform sources, invalid regexes in regex / replace / expansions, \
+  out.finish("rule documents from 22 generators (extreme / non-numeric nthChild and substring numbers, An+B strings at the i32 limits, empty / multi-byte / sigil-only transform sources, invalid regexes in regex / replace / expansions, \
               convert on multi-byte acronyms, ranges, reference cycles through all/any/not/matches, nthChild.ofRule and relational rules, cyclic and dangling transformations, rewriters with expanding fixes and unknown ids, \
               textual mutations of a valid rule, random keys and types, labels / metadata / globs) each loaded and run on a source (file and --stdin) by the debug-build CLI in a child process under a 15 s limit; \
               plus project-level cases (orphan snapshot, unknown test id, garbage sgconfig / test / util files, missing directories, custom language without library). \
